@@ -36,6 +36,7 @@ continuation):
     ...
   head:                     ghost text at the start of the body
   tail:                     ghost text at the end of the body (unit fns only)
+  loopend N:                ghost text at the very end of the body of loop N (no statement text involved)
   tailexpr:                 ghost text immediately before the body's trailing expression (position found syntactically, no statement text)
   loop 1:
     invariant
@@ -203,7 +204,7 @@ class FnSpec:
         self.ghost_tag = {}
 
 
-SECTION_RE = re.compile(r'^(props|safety|attr|mode|spectail|tailexpr|sigsub|bodysub\?|bodysub|ret|part|sig|requires|ensures|head|tail|loop\s+\d+|after\s+".*"\s*(?:#\d+)?|before\s+".*"\s*(?:#\d+)?|known\s+\w+)\s*:\s*(.*)$')
+SECTION_RE = re.compile(r'^(props|safety|attr|mode|spectail|tailexpr|loopend\s+\d+|sigsub|bodysub\?|bodysub|ret|part|sig|requires|ensures|head|tail|loop\s+\d+|after\s+".*"\s*(?:#\d+)?|before\s+".*"\s*(?:#\d+)?|known\s+\w+)\s*:\s*(.*)$')
 TAG_RE = re.compile(r'^\[([A-Z0-9, ]*?)(?:\s+([A-Za-z0-9_.-]+))?\]\s*(.*)$', re.S)
 
 
@@ -302,6 +303,10 @@ def parse_fn_block(header, lines):
             fn.tail += body
         elif key == 'tailexpr':
             fn.tailexpr = getattr(fn, 'tailexpr', []) + body
+        elif key.startswith('loopend'):
+            n = int(key.split()[1])
+            fn.loopends = getattr(fn, 'loopends', {})
+            fn.loopends[n] = fn.loopends.get(n, []) + body
         elif key.startswith('loop'):
             n = int(key.split()[1])
             fn.loops[n] = parse_loop(body, fn, n, counter)
@@ -766,7 +771,7 @@ class Generator:
         loop_pos = [mt for mt in loop_pos if not re.match(r'\s*<', bm[mt.end():])]  # not `for<'a>`
         loops = dict(fn.loops)
         kloops = known['loops'] if known else {}
-        for n in set(loops) | set(kloops):
+        for n in set(loops) | set(kloops) | set(getattr(fn, 'loopends', {})):
             if n > len(loop_pos):
                 raise LostAnchor('%s: loop %d not found' % (fn.qual, n))
             mt = loop_pos[n - 1]
@@ -781,6 +786,12 @@ class Generator:
                 elif ch == '{' and depth == 0:
                     break
                 j += 1
+            if n in getattr(fn, 'loopends', {}):
+                # ghost text at the very end of the loop body (just before its closing brace): needs no statement text
+                e = match_close(bm, j)
+                inserts.append((e, '\n' + ghost_text(fn.loopends[n]) + '\n', 'ghost_tail'))
+            if n not in loops and n not in kloops:
+                continue
             spec = loops.get(n, dict(invariant=[], ensures=[], decreases=[], attr=[], invariant_except_break=[]))
             inv = spec['invariant'] + kloops.get(n, [])
             inserts.append((j, ('LOOPSPEC', spec, inv), 'loopspec'))
